@@ -130,6 +130,12 @@ func runWrm(c *Ctx, _ []string) {
 		out := strings.Builder{}
 		closedOK := false
 		c.Watchdog(60*time.Second, map[string]any{"case": line}, func() {
+			defer func() {
+				if e := recover(); e != nil {
+					closedOK = false
+					fmt.Fprintf(&out, "PANIC:%s ", strings.ReplaceAll(fmt.Sprint(e), " ", "_"))
+				}
+			}()
 			if err != nil {
 				out.WriteString("NEWERR ")
 			} else {
@@ -188,6 +194,27 @@ func runWrm(c *Ctx, _ []string) {
 		}
 	}
 	c.Stats["distinct_nontrivial"] = nontrivial
+}
+
+func runRdOps(rd *kio.Reader, ops []string, out *strings.Builder) {
+	for _, o := range ops {
+		if o == "c" {
+			rd.Close()
+			out.WriteString("C ")
+			continue
+		}
+		var ln int
+		fmt.Sscanf(o, "r %d", &ln)
+		buf := make([]byte, ln)
+		k, err := rd.Read(buf)
+		tag := "nil"
+		if err == stdio.EOF {
+			tag = "eof"
+		} else if err != nil {
+			tag = "err"
+		}
+		fmt.Fprintf(out, "R%d:%s:%d ", k, tag, sumBytes(buf[:k]))
+	}
 }
 
 func runRdm(c *Ctx, _ []string) {
@@ -294,24 +321,14 @@ func runRdm(c *Ctx, _ []string) {
 		if err != nil {
 			out.WriteString("NEWERR ")
 		} else {
-			for _, o := range ops {
-				if o == "c" {
-					rd.Close()
-					out.WriteString("C ")
-					continue
-				}
-				var ln int
-				fmt.Sscanf(o, "r %d", &ln)
-				buf := make([]byte, ln)
-				k, err := rd.Read(buf)
-				tag := "nil"
-				if err == stdio.EOF {
-					tag = "eof"
-				} else if err != nil {
-					tag = "err"
-				}
-				fmt.Fprintf(&out, "R%d:%s:%d ", k, tag, sumBytes(buf[:k]))
-			}
+			func() {
+				defer func() {
+					if e := recover(); e != nil {
+						fmt.Fprintf(&out, "PANIC:%s ", strings.ReplaceAll(fmt.Sprint(e), " ", "_"))
+					}
+				}()
+				runRdOps(rd, ops, &out)
+			}()
 		}
 		fmt.Fprintln(cases, line)
 		fmt.Fprintln(gout, out.String())
